@@ -44,8 +44,8 @@ def scenarios(tier: str) -> List[ConcScenario]:
     S.append(ConcScenario('tree/get-vs-remove-parent', hasher='const', capacity=40, prefill=tree, threads=[[('remove', 5)], [('get', 4)]], preemptions=2))
     S.append(ConcScenario('tree/get-vs-remove-parent2', hasher='samebin', capacity=40, prefill=tree, threads=[[('remove', 3)], [('get', 2)]], preemptions=2))
     # the bin a resize is waiting for is untreeified by the lock holder
-    S.append(ConcScenario('tree/untreeify-vs-resize', hasher='const', capacity=40, prefill=tree, setup_removes=[0, 1, 2], threads=[[('compute_none', 3)], [('reserve', 40)]], preemptions=(2 if th else 1), yield_loads=False))
-    S.append(ConcScenario('tree/split-by-resize-vs-remove', hasher='split', capacity=40, prefill=list(range(10)), threads=[[('reserve', 40)], [('remove', 3)]], preemptions=(2 if th else 1), yield_loads=False))
+    S.append(ConcScenario('tree/untreeify-vs-resize', hasher='const', capacity=40, prefill=tree, setup_removes=[0, 1, 2], threads=[[('compute_none', 3)], [('reserve', 40)]], preemptions=1, yield_loads=th))
+    S.append(ConcScenario('tree/split-by-resize-vs-remove', hasher='split', capacity=40, prefill=list(range(10)), threads=[[('reserve', 40)], [('remove', 3)]], preemptions=1, yield_loads=th))
     # completing the matrix (operation that takes a bin lock) x (event that replaces the bin head while it waits): the pairs not
     # covered above or by C03/C04/C05/C08/C10/C13
     S.append(ConcScenario('tree/clear-vs-insert', hasher='const', capacity=40, prefill=tree, threads=[[('clear',)], [('insert', 12)]], preemptions=(2 if th else 1), yield_loads=False))
